@@ -371,6 +371,31 @@ def run(chk):
                         v, d = UNDECIDED, e.cause
                     chk.add("C02.I", key, v, d, where=where_of(b))
     chk.floor("C02.I producers", producers, 2 * 30)
+    # ------------------------------------------------------------------ C02.X
+    # producers outside the defining modules: they can only build a table through the modules' public API, whose one
+    # precondition is from_blocks' "blocks are well formed" - conversions of the term containers are interpreted on
+    # windows of real terms and every bit at a position >= 2^n of the result must be 0 for every choice of terms
+    from ..sopmodel import Container
+    from ..window import to_lut_rules
+    outside = 0
+    for adt_path, red in (("sop::sop::Sop", "or"), ("sop::esop::Esop", "xor"), ("sop::soes::Soes", "or")):
+        try:
+            outside += to_lut_rules(chk, "C02.X", facts, Container(facts, adt_path), red, chk.tier, only_high=True)
+        except (KeyError, Undecided) as e:
+            chk.undecided("C02.X", "conversions of %s" % adt_path, str(getattr(e, "cause", e)))
+    # any other body outside the defining modules that calls from_blocks is not covered by C02.X
+    covered_callers = set()
+    for bd, sty, tr in facts.trait_impl_methods("std::convert::From"):
+        covered_callers.add(bd["key"])
+    for b in facts.lib_bodies():
+        if any(b["key"].startswith(m_ + "::") for m_ in mods.values()) or b["key"] in covered_callers:
+            continue
+        for blk in b["mir"]["blocks"]:
+            t_ = blk["term"]
+            f_ = (t_.get("func") or {}) if t_["k"] == "call" else {}
+            callee = (f_.get("resolved") or {}).get("path") or f_.get("path") or ""
+            if callee.endswith("::from_blocks"):
+                chk.undecided("C02.X", "from_blocks called in %s" % b["path"], "caller outside the table modules is not analysed for the precondition of from_blocks")
     chk.notes["n_range"] = [0, nmax]
     chk.notes["explanation"] = ("inductive invariant over all API histories: representation private to the defining modules (rustc privacy) + "
                                 "every externally reachable body of those modules that hands back or mutates a table preserves 'no bit >= 2^n, table_size(n) blocks' "
